@@ -22,7 +22,8 @@ RULE = ("passwords from a generator biased to blanks (inside, leading), non-ASCI
         "another password) is never a substring of any record (message, args, exception text); (b) non-interference: two runs "
         "that differ only in the password (same length) produce identical log streams.  distinct = distinct (password class, "
         "scenario) pairs; non-trivial = the password contains a non-alphanumeric character or is shorter than 3.")
-ASSUMPTIONS = ["passwords with CR/LF or trailing blanks are not carriable by the line protocol and are excluded",
+ASSUMPTIONS = ["passwords with CR/LF are not carriable by the line protocol and are excluded; blanks at the ends are sent (the server "
+               "strips them, so such logins are rejected) and searched for without them",
                "all loggers propagate to the root logger (true for aioftp.client / aioftp.server)"]
 REQUIRED_MONITORS = ["substring_search", "non_interference", "records_seen"]
 ANCHOR_FUNCTIONS = ['server.py:Server.parse_command', 'client.py:Client.login', 'client.py:BaseClient.command']
@@ -92,14 +93,18 @@ async def scenario(net, hyg, name, password):
         if name == "client_ok_ops":
             c = aioftp.Client(path_io_factory=aioftp.MemoryPathIO)
             await c.connect("127.0.0.1", 2121)
-            await c.login("alice", password)
-            await c.make_directory("/d")
-            outcome.append(len(await c.list("/")))
             try:
-                await c.change_directory("/nope")
+                await c.login("alice", password)
+                await c.make_directory("/d")
+                outcome.append(len(await c.list("/")))
+                try:
+                    await c.change_directory("/nope")
+                except aioftp.StatusCodeError as e:
+                    outcome.append("rejected:" + str(e.received_codes[-1]))
+                await c.quit()
             except aioftp.StatusCodeError as e:
-                outcome.append("rejected:" + str(e.received_codes[-1]))
-            await c.quit()
+                outcome.append("login-rejected:" + str(e.received_codes[-1]))
+                c.close()
         elif name in ("raw_user_limit", "raw_server_limit"):
             # the limit of the user / of the server is reached by sessions that logged in with the password
             p1 = RawPeer(net, 2121)
@@ -253,9 +258,10 @@ def run_case(case):
                 base_text = "\n".join(texts2)
             else:
                 base_text = ""
-            if len(pw) >= 4 and pw not in base_text:
+            needle = pw.strip()     # what the line protocol really carries of a password with blanks at its ends
+            if len(needle) >= 4 and needle not in base_text:
                 mon["substring_search"] += 1
-                hits = [t for t in texts1 if pw in t]
+                hits = [t for t in texts1 if needle in t]
                 if hits:
                     viol.append({"key": f"password-in-log:{name}",
                                  "msg": f"scenario {name}: password {pw!r} appears in log record {hits[0][:200]!r}",
@@ -270,7 +276,7 @@ def gen_cases(tier, seed):
     rng = random.Random(seed * 37 + 1)
     n = 64 if tier == "quick" else 1200
     pws = ["secret", "s3cr3t pass", " leading", "a", "ab", "%s%s%s", "%(x)s", "{}{}", "back\\slash", "пароль1", "pa ss  wo rd", "***", "****",
-           "PASS secret2", "x" * 64]
+           "PASS secret2", "x" * 64, "trailing ", "two blanks  ", " both ends ", "tab\tin\tside", "end-tab\t"]
     while len(pws) < n:
         pws.append(gen_password(rng))
     per = 4
